@@ -1,7 +1,7 @@
 package main
 
 // `vh GENPRIMES -out <file>`: one-off generation of 1024-bit safe Blum primes with the repository's own sampler
-// (public test material stored in /verif/data/safeprimes.txt; never run by the checks).
+// (public test material stored in /verif/data/safeprimes24.txt; never run by the checks).
 
 import (
 	crand "crypto/rand"
@@ -17,7 +17,7 @@ func init() { props["GENPRIMES"] = runGenPrimes }
 func runGenPrimes(c *ctx) {
 	pl := pool.NewPool(0)
 	defer pl.TearDown()
-	f, err := os.OpenFile("/verif/data/safeprimes.txt", os.O_APPEND|os.O_CREATE|os.O_WRONLY, 0o644)
+	f, err := os.OpenFile("/verif/data/safeprimes24.txt", os.O_APPEND|os.O_CREATE|os.O_WRONLY, 0o644)
 	if err != nil {
 		panic(err)
 	}
